@@ -4,16 +4,17 @@ inputs (never to /repo), run the quick checks (all claimed ones by default) in p
 import json, os, shutil, subprocess, sys, tempfile
 from concurrent.futures import ThreadPoolExecutor
 HERE = os.path.dirname(os.path.dirname(os.path.abspath(__file__)))
+BASE = os.environ.get('TRY_BASE', '/repo')
 patch = os.path.abspath(sys.argv[1])
 props = sys.argv[2:] or [c['property_id'] for c in json.load(open(os.path.join(HERE, 'MANIFEST.json')))['checks']]
 d = tempfile.mkdtemp(prefix='seedtry_', dir='/tmp')
 try:
     os.makedirs(d + '/m4ri')
-    for f in os.listdir('/repo/m4ri'):
+    for f in os.listdir(BASE + '/m4ri'):
         if f.endswith(('.c', '.h', '.in')):
-            shutil.copy('/repo/m4ri/' + f, d + '/m4ri/' + f)
+            shutil.copy(BASE + '/m4ri/' + f, d + '/m4ri/' + f)
     for f in ('Makefile.am', 'configure.ac'):
-        shutil.copy('/repo/' + f, d + '/' + f)
+        shutil.copy(BASE + '/' + f, d + '/' + f)
     r = subprocess.run(['patch', '-p1', '-s', '-d', d, '-i', patch], stdout=subprocess.PIPE, stderr=subprocess.STDOUT)
     if r.returncode != 0:
         sys.exit('patch failed: ' + r.stdout.decode()[-300:])
